@@ -45,7 +45,11 @@ FIELDS = tuple(DEFAULTS)
 
 
 def ts_of(s):
-    return None if s == "none" else datetime.datetime(2000, 1, 1, 0, 0, int(s), tzinfo=UTC)
+    """Supplied timestamps: "1".."8" lie behind the clock (year 2000), "9" lies ahead of it (year 2100) - a
+    skewed worker clock or a replayed stream; a decorator must neither change them nor remember them."""
+    if s == "none":
+        return None
+    return datetime.datetime(2100 if s == "9" else 2000, 1, 1, 0, 0, int(s), tzinfo=UTC)
 
 
 def route_of(segs):
@@ -313,6 +317,10 @@ def replay(spec_tree, hist):
                         ok = g == w and (g is None) == (w is None)
                     if not ok:
                         cls = leaf.kind
+                        if f == "timestamp" and w == "NOW" and any(
+                            g is not None and g == k.get("timestamp") for k in tree.keep[:-1]
+                        ):
+                            cls += ":taken-from-an-earlier-event"  # the decorator is not stateless
                         if f == "test_tags":
                             al = alt["leaves"][j]
                             if x < len(al) and _tags_eq(g, al[x]["v"]["tags"]):
@@ -424,6 +432,7 @@ def run(tier, pid="C11"):
         ("sd_mcM.cfg" if q else "sd_mcF.cfg", {}, False),
         ("sd_expQ.cfg", {}, True),
         ("sd_expB.cfg", {}, True),
+        ("sd_expT.cfg", {}, True),  # histories on one TimestampingStreamResult: past / future stamps, then none
     ]
     if q:
         jobs.append(("sd_simR.cfg", dict(simulate=dict(num=60, depth=14), seed=rep.seed + 11), True))
